@@ -61,8 +61,8 @@ type sim struct {
 
 	// statistics
 	ops, cycles, appended, conflicts, restores, compactions int
-	sig                                                  uint64
-	probeCalls                                           int64
+	sig                                                     uint64
+	probeCalls                                              int64
 }
 
 func (s *sim) vio(oracle, format string, args ...interface{}) {
